@@ -3,6 +3,7 @@ package checks
 import (
 	"errors"
 	"fmt"
+	"io"
 	"net/http"
 	"net/http/httptest"
 	"strings"
@@ -51,11 +52,23 @@ func (w *recW) Write(b []byte) (int, error) {
 }
 func (w *recW) Flush() { w.log = append(w.log, "F") }
 
-// operations: one letter each
-// 0..6 SetStatus(code) ; h SetHeader ; e Write("") ; w Write("ab") ; f Flush ; E http.Error(418) ; R Redirect(302) ; T Text(201,"hi")
-var c08Status = map[byte]int{'0': -1, '1': 0, '2': 100, '3': 200, '4': 201, '5': 404, '6': 500}
+// recWRF is a recording writer that also implements io.ReaderFrom, like net/http's real response writer does
+type recWRF struct{ *recW }
 
-const c08Ops = "0123456hewfERT"
+func (w recWRF) ReadFrom(src io.Reader) (int64, error) {
+	b, err := io.ReadAll(src)
+	n, werr := w.recW.Write(b)
+	if err == nil {
+		err = werr
+	}
+	return int64(n), err
+}
+
+// operations: one letter each
+// 0..7 SetStatus(code) ; h SetHeader ; e Write("") ; w Write("ab") ; f Flush ; E http.Error(418) ; R Redirect(302) ; T Text(201,"hi") ; S Stream(203, reader without WriteTo)
+var c08Status = map[byte]int{'0': -1, '1': 0, '2': 100, '3': 304, '4': 201, '5': 404, '6': 500, '7': 204}
+
+const c08Ops = "01234567hewfERTS"
 
 func c08Apply(c *rux.Context, op byte) {
 	switch op {
@@ -73,6 +86,8 @@ func c08Apply(c *rux.Context, op byte) {
 		c.Redirect("/to", 302)
 	case 'T':
 		c.Text(201, "hi")
+	case 'S':
+		c.Stream(203, "x/stream", struct{ io.Reader }{strings.NewReader("str")})
 	default:
 		c.SetStatus(c08Status[op])
 	}
@@ -158,6 +173,10 @@ func (m *c08Model) apply(op byte) {
 			m.ctSet = true
 			m.write("<a href=\"/to\">Found</a>.\n\n")
 		}
+	case 'S':
+		m.ctSet = true
+		m.setStatus(203)
+		m.write("str")
 	case 'T':
 		m.ctSet = true
 		m.setStatus(201)
@@ -182,7 +201,9 @@ type c08Run_ struct {
 	Ops     string       `json:"ops"`
 	I, J    int          // ops[:I] middleware before Next, ops[I:J] main handler, ops[J:] middleware after Next
 	Answers map[int]byte `json:"answers,omitempty"`
-	Redisp  bool         `json:"redispatch,omitempty"` // the main handler ends by re-dispatching the request with HandleContext
+	Redisp  bool         `json:"redispatch,omitempty"`  // the main handler ends by re-dispatching the request with HandleContext
+	K       int          `json:"k,omitempty"`           // K>0: ops[K:] run in the router's OnError hook (the main handler records an error)
+	RF      bool         `json:"reader_from,omitempty"` // the underlying writer also implements io.ReaderFrom
 }
 
 // one router per shard; the handlers read the run to perform from cur
@@ -206,11 +227,23 @@ func newC08Harness() *c08Harness {
 			c08Apply(c, run.Ops[k])
 		}
 		c.Next()
-		for k := run.J; k < len(run.Ops); k++ {
+		end := len(run.Ops)
+		if run.K > 0 {
+			end = run.K
+		}
+		for k := run.J; k < end; k++ {
 			c08Apply(c, run.Ops[k])
 		}
 		h.length, h.status, h.sampled = c.Length(), c.StatusCode(), true
 	})
+	h.r.OnError = func(c *rux.Context) {
+		run := h.cur
+		if run.K > 0 {
+			for k := run.K; k < len(run.Ops); k++ {
+				c08Apply(c, run.Ops[k])
+			}
+		}
+	}
 	h.r.GET("/x", func(c *rux.Context) {
 		run := h.cur
 		for k := run.I; k < run.J; k++ {
@@ -220,6 +253,9 @@ func newC08Harness() *c08Harness {
 			c.Req.URL.Path = "/y"
 			c.Router().HandleContext(c)
 		}
+		if run.K > 0 {
+			c.AddError(errors.New("recorded"))
+		}
 	})
 	return h
 }
@@ -228,7 +264,15 @@ func (h *c08Harness) exec(run *c08Run_) (w *recW, length, status int, sampled bo
 	w = &recW{h: http.Header{}, answers: run.Answers}
 	h.cur, h.sampled = run, false
 	h.req.URL.Path = "/x"
-	pv = try(func() { h.r.ServeHTTP(w, h.req) })
+	var under http.ResponseWriter = w
+	if run.RF {
+		under = struct {
+			http.ResponseWriter
+			http.Flusher
+			io.ReaderFrom
+		}{w, w, recWRF{w}}
+	}
+	pv = try(func() { h.r.ServeHTTP(under, h.req) })
 	return w, h.length, h.status, h.sampled, pv
 }
 
@@ -249,8 +293,8 @@ func c08Check(h *c08Harness, run c08Run_, st *fw.Stats) *fw.Viol {
 	}
 	w, length, status, sampled, pv := h.exec(&run)
 	desc := func() string {
-		return fmt.Sprintf("ops %q (middleware before Next: %q, main handler: %q, middleware after Next: %q), write answers %v [0-6=SetStatus(-1,0,100,200,201,404,500) h=SetHeader e=Write(\"\") w=Write(\"ab\") f=Flush E=http.Error(418) R=Redirect(302) T=Text(201)]",
-			run.Ops, run.Ops[:run.I], run.Ops[run.I:run.J]+map[bool]string{true: " then HandleContext to a route writing \"cd\"", false: ""}[run.Redisp], run.Ops[run.J:], fmtAnswers(run.Answers))
+		return fmt.Sprintf("ops %q (middleware before Next: %q, main handler: %q, middleware after Next: %q), write answers %v [0-7=SetStatus(-1,0,100,304,201,404,500,204) h=SetHeader e=Write(\"\") w=Write(\"ab\") f=Flush E=http.Error(418) R=Redirect(302) T=Text(201) S=Stream(203)]",
+			run.Ops, run.Ops[:run.I], run.Ops[run.I:run.J]+map[bool]string{true: " then HandleContext to a route writing \"cd\"", false: ""}[run.Redisp], c08Tail(run), fmtAnswers(run.Answers))
 	}
 	if pv != nil && !m.panicked {
 		return &fw.Viol{Sig: "writer:panic", Msg: fmt.Sprintf("%s: ServeHTTP panicked: %v", desc(), pv)}
@@ -286,13 +330,26 @@ func c08Check(h *c08Harness, run c08Run_, st *fw.Stats) *fw.Viol {
 	if string(w.body) != m.body {
 		return &fw.Viol{Sig: "writer:body", Msg: fmt.Sprintf("%s: body %q, expected %q", desc(), w.body, m.body)}
 	}
-	if sampled && wasCommitted && !m.panicked {
+	if sampled && wasCommitted && !m.panicked && run.K == 0 {
 		if length != lenBeforeEnd {
 			return &fw.Viol{Sig: "writer:length", Msg: fmt.Sprintf("%s: Length() = %d after the chain, %d bytes were accepted", desc(), length, lenBeforeEnd)}
 		}
 		_ = status
 	}
 	return nil
+}
+
+func c08Tail(run c08Run_) string {
+	t := ""
+	if run.K > 0 {
+		t = run.Ops[run.J:run.K] + " | OnError hook: " + run.Ops[run.K:]
+	} else {
+		t = run.Ops[run.J:]
+	}
+	if run.RF {
+		t += " | underlying writer implements io.ReaderFrom"
+	}
+	return t
 }
 
 func fmtAnswers(a map[int]byte) string {
@@ -348,6 +405,18 @@ func c08RunCase(c c08Case, st *fw.Stats) []fw.Viol {
 			// ... and with the main handler re-dispatching at its end (no operations after Next)
 			try1(c08Run_{Ops: ops, I: 0, J: d, Redisp: true})
 			try1(c08Run_{Ops: ops, I: d / 2, J: d, Redisp: true})
+			// ... with the tail of the sequence performed by the OnError hook (the main handler records an error)
+			if d >= 1 {
+				try1(c08Run_{Ops: ops, I: 0, J: d - 1, K: d - 1})
+				if d >= 2 && d/2 != d-1 {
+					try1(c08Run_{Ops: ops, I: 0, J: d / 2, K: d / 2})
+				}
+			}
+			// ... and on an underlying writer that implements io.ReaderFrom (like net/http's) when something is streamed
+			if strings.IndexByte(ops, 'S') >= 0 {
+				try1(c08Run_{Ops: ops, I: 0, J: d, RF: true})
+				try1(c08Run_{Ops: ops, I: d / 2, J: d, RF: true})
+			}
 			if c.Dev >= 1 {
 				for a := 0; a < nw; a++ {
 					for _, ka := range []byte{'s', 'e'} {
@@ -380,24 +449,29 @@ func c08RunCase(c c08Case, st *fw.Stats) []fw.Viol {
 }
 
 func c08Gen(tier string, emit func(c08Case)) {
-	// shards: all two-operation prefixes (the empty and one-operation sequences ride on the first shard of each)
+	// the empty and one-operation sequences
 	emit(c08Case{Prefix: "", Depth: 1, Dev: 2, Splits: true})
-	fullDepth, devDepth := 4, 5
+	// quick: every split up to length 3, representative splits at length 4 (<=2 faults);
+	// thorough: every split up to length 4, representative splits at 5 (<=2 faults), length 6 with <=1 fault
+	allSplits, repDepth, devDepth := 3, 4, 0
 	if tier == "thorough" {
-		fullDepth, devDepth = 5, 6
+		allSplits, repDepth, devDepth = 4, 5, 6
 	}
-	for i := 0; i < len(c08Ops); i++ {
-		for j := 0; j < len(c08Ops); j++ {
+	n := len(c08Ops)
+	for i := 0; i < n; i++ {
+		for j := 0; j < n; j++ {
 			p := string(c08Ops[i]) + string(c08Ops[j])
-			emit(c08Case{Prefix: p, Depth: fullDepth, Dev: 2, Splits: true})
+			emit(c08Case{Prefix: p, Depth: allSplits, Dev: 2, Splits: true})
 		}
 	}
-	// one level deeper with <=1 deviation and the representative splits
-	for i := 0; i < len(c08Ops); i++ {
-		for j := 0; j < len(c08Ops); j++ {
-			for k := 0; k < len(c08Ops); k++ {
+	for i := 0; i < n; i++ {
+		for j := 0; j < n; j++ {
+			for k := 0; k < n; k++ {
 				p := string(c08Ops[i]) + string(c08Ops[j]) + string(c08Ops[k])
-				emit(c08Case{Prefix: p, Depth: devDepth, Dev: 1, Splits: false, Min: devDepth})
+				emit(c08Case{Prefix: p, Depth: repDepth, Dev: 2, Splits: false, Min: repDepth})
+				if devDepth > 0 {
+					emit(c08Case{Prefix: p, Depth: devDepth, Dev: 1, Splits: false, Min: devDepth})
+				}
 			}
 		}
 	}
@@ -406,14 +480,14 @@ func c08Gen(tier string, emit func(c08Case)) {
 var c08Spec = fw.Spec[c08Case]{
 	ID:    "C08",
 	Level: "model_checking",
-	Rule: "depth-bounded exhaustive search: ALL operation sequences of length <=4 (thorough 5) over 14 operations {SetStatus(-1,0,100,200,201,404,500), SetHeader, Write(\"\"), Write(\"ab\"), Flush, http.Error(418), Redirect(302), Text(201)} x every split of the sequence over middleware-before-Next / main handler / middleware-after-Next x every assignment of <=2 non-default answers (short write, error) to the underlying writes; length 5 (thorough 6) with <=1 deviation and 4 representative splits; " +
+	Rule: "depth-bounded exhaustive search: ALL operation sequences of length <=4 (thorough 6) over 16 operations {SetStatus(-1,0,100,304,201,404,500,204), SetHeader, Write(\"\"), Write(\"ab\"), Flush, http.Error(418), Redirect(302), Text(201), Stream(203)} x every split of the sequence over middleware-before-Next / main handler / middleware-after-Next (also with the tail run by the OnError hook, with a HandleContext re-dispatch, and on an underlying writer implementing io.ReaderFrom) x every assignment of <=2 non-default answers (short write, error) to the underlying writes (every split up to length 3 (4), 4 representative splits plus OnError / re-dispatch / ReaderFrom variants at length 4 (5), <=1 fault at length 6 in the thorough tier); " +
 		"oracle = 20-line writer specification compared with the complete event log of a recording ResponseWriter+Flusher; non-trivial = sequence containing a write, flush or helper",
 	Assume: []string{"Text (WriteBytes) is documented to panic when the underlying write fails; after such a panic only the log so far is compared", "Length() is compared once a header was committed"},
 	Bounds: func(tier string) map[string]any {
 		if tier == "quick" {
-			return map[string]any{"ops": len(c08Ops), "depth_all_splits_2_deviations": 4, "depth_1_deviation": 5}
+			return map[string]any{"ops": len(c08Ops), "depth_all_splits_2_faults": 3, "depth_representative_splits_2_faults": 4}
 		}
-		return map[string]any{"ops": len(c08Ops), "depth_all_splits_2_deviations": 5, "depth_1_deviation": 6}
+		return map[string]any{"ops": len(c08Ops), "depth_all_splits_2_faults": 4, "depth_representative_splits_2_faults": 5, "depth_1_fault": 6}
 	},
 	Gen:   c08Gen,
 	Run:   c08RunCase,
